@@ -243,8 +243,13 @@ def weighted_cases(draw, tier):
     i = draw(st.integers(0, len(spec["layers"])))
     off = draw(st.integers(0, len(specs.scans(spec)[i])))
     layers = [list(l) for l in spec["layers"]]
-    layers.insert(i, [{"k": "g", "g": "scalar", "a": [w, 0],
-                       "mixed": True}, off])
+    # the weight as a mixed scalar or as a classical gate without wires
+    # (a 0 -> 0 stochastic map): both enter the evaluation linearly
+    if draw(st.booleans()):
+        weight = {"k": "g", "g": "scalar", "a": [w, 0], "mixed": True}
+    else:
+        weight = {"k": "g", "g": "CGate", "a": ["w", 0, 0, [w]]}
+    layers.insert(i, [weight, off])
     return {"d": dict(spec, layers=layers), "w": w}
 
 
